@@ -17,12 +17,14 @@ LEAN_MODS = ["SwcVerif.Props.C20"]
 THEOREMS = [
     "C20.consts_pinned", "C20.save_puts_z_first", "C20.axes_roundtrip", "C20.axes_roundtrip_3d", "C20.unknown_axis", "C20.rescale_table",
     "C20.uint_float_uint", "C20.float_uint_float", "C20.grid_covers", "C20.bbox_contains", "C20.swept_ends",
+    "C20.contained_swept_in_ball", "C20.contained_swept_in_ball'", "C20.degenerate_edge_is_ball", "C20.coincident_is_ball",
 ]
 TRUSTED = ["hand-written models Model/Images.lean of the axis bookkeeping (index tuples), the rescaling decisions and the voxel grid; AXES_ORDER, UINT_MAX and "
            "the 'ZXYC' axes string are regenerated from images/io.py on every run (Gen/Consts.lean)"]
 ASSUMPTIONS = ["tifffile / pynrrd / np.save-load store and return the array they are given (exercised by real round trips, not modelled)",
-               "sdflit: RangeSampler samples [min, max) with the given stride, RoundCone is the convex hull of the two end balls (observed by the raster oracle away "
-               "from the surface, not proved)", "float32 rounding of voxel coordinates"]
+               "sdflit: RangeSampler samples [min, max) with the given stride, RoundCone is the convex hull of the two end balls when neither ball contains the other (observed by the raster oracle "
+               "away from the surface, not proved); edges whose one ball contains the other are added as a Sphere (decision modelled: Img.edgeIsBall, tied by recording "
+               "the constructor calls in-process)", "float32 rounding of voxel coordinates"]
 
 
 class SaveLoad(Suite):
@@ -152,6 +154,23 @@ class Raster(Suite):
                 t["xyz"] = [[c / 6.0 for c in p] for p in t["xyz"]]
                 t["r"] = [rng.choice([0.5, 1.0, 1.5]) for _ in t["r"]]
                 out.append({"class": f"n{t['n']}", "tree": t, "res": rng.choice([1.0, 0.5, 2.0, 3.0, 0.75, [1.0, 0.5, 2.0], [1.0, 1.0, 3.0]])})
+                if t["n"] > 1 and rng.random() < 0.5:
+                    # an edge whose one end ball contains the other (child tucked inside the parent ball or the other way round)
+                    t2 = {**t, "xyz": [list(p) for p in t["xyz"]], "r": list(t["r"])}
+                    c = rng.randrange(1, t2["n"]); par = t2["pids"][c]
+                    d = [rng.choice([-2, -1, 0, 1, 2]) / 6.0 for _ in range(3)]
+                    t2["xyz"][c] = [t2["xyz"][par][i] + d[i] for i in range(3)]
+                    big, small = rng.choice([(1.5, 0.5), (1.0, 0.5), (1.5, 1.0), (1.0, 1.0)])
+                    t2["r"][par], t2["r"][c] = (big, small) if rng.random() < 0.6 else (small, big)
+                    out.append({"class": f"n{t2['n']}/tucked", "tree": t2, "res": rng.choice([0.5, 1.0, 0.75])})
+        # fixed degenerate edges: child ball inside the parent ball, parent inside child, coincident nodes, internal tangency
+        for xyz, r in (([[0.0, 0.0, 0.0], [0.0, 1 / 3, -1 / 3], [1.5, 0.5, 2.5]], [1.0, 0.5, 0.5]),
+                       ([[0.0, 0.0, 0.0], [0.25, 0.0, 0.25], [2.0, 0.0, 0.0]], [0.5, 1.5, 0.5]),
+                       ([[0.0, 0.0, 0.0], [0.0, 0.0, 0.0], [0.0, 2.0, 1.0]], [1.0, 1.0, 0.5]),
+                       ([[0.0, 0.0, 0.0], [0.0, 0.0, 0.0], [0.0, 2.0, 1.0]], [1.5, 0.5, 0.5]),
+                       ([[0.0, 0.0, 0.0], [0.0, 0.0, 0.5], [2.0, 0.0, 0.5]], [1.0, 0.5, 0.5])):
+            t = {"class": "chain/sorted", "n": 3, "pids": [-1, 0, 1], "types": [1, 3, 3], "xyz": xyz, "r": r}
+            out.append({"class": "n3/degenerate-edge", "tree": t, "res": 0.5})
         # resolutions that do not divide the height of the bounding box: the last, partially filled slice must be there
         t = gen.tree_case(rng, 2, "chain", numbering="sorted", coords="lattice")
         t["xyz"] = [[0.0, 0.0, 0.0], [0.5, 0.0, 3.0]]; t["r"] = [1.0, 1.0]      # z-extent of the box: 5
@@ -162,9 +181,27 @@ class Raster(Suite):
     def run(self, case):
         from swcgeom.transforms import ToImageStack
 
+        import swcgeom.transforms.image_stack as mod
+
         t = gen.make_tree(case["tree"])
-        img = ToImageStack(case["res"])(t)
-        return {"shape": list(img.shape), "lit": np.argwhere(img > 0).tolist(), "values": sorted(set(int(v) for v in np.unique(img)))}
+        # record which solid the scene builder creates for each edge (wrapping the constructors it looks up in its own module)
+        solids = []
+        saved = {k: getattr(mod, k) for k in ("Sphere", "RoundCone") if hasattr(mod, k)}
+
+        def wrap(kind, ctor):
+            def make(*a):
+                solids.append([kind] + [[float(v) for v in x] if isinstance(x, (tuple, list)) else float(x) for x in a])
+                return ctor(*a)
+            return make
+
+        try:
+            for k, ctor in saved.items():
+                setattr(mod, k, wrap(k, ctor))
+            img = ToImageStack(case["res"])(t)
+        finally:
+            for k, ctor in saved.items():
+                setattr(mod, k, ctor)
+        return {"shape": list(img.shape), "lit": np.argwhere(img > 0).tolist(), "values": sorted(set(int(v) for v in np.unique(img))), "solids": solids}
 
     def lines(self, case, res):
         if "exc" in res:
@@ -172,6 +209,25 @@ class Raster(Suite):
         t = case["tree"]
         rs = case["res"] if isinstance(case["res"], list) else [case["res"]] * 3
         xyz = np.array(t["xyz"], dtype=np.float32); r = np.array(t["r"], dtype=np.float32).reshape(-1, 1)
+        edge_lines = []
+        # the solid chosen per edge: model decision on the float32 values the code sees vs the constructor calls recorded in-process
+        F = lambda v: Fraction(float(v))
+        made = set()
+        for sld in res.get("solids", []):
+            if sld[0] == "Sphere":
+                made.add("ball " + ",".join(str(F(np.float32(v))) for v in sld[1] + [sld[2]]))
+            else:
+                made.add("cone " + ",".join(str(F(np.float32(v))) for v in sld[1] + sld[2] + [sld[3], sld[4]]))
+        for c, par in enumerate(t["pids"]):
+            if par < 0:
+                continue
+            a, b, ra, rb = xyz[par], xyz[c], r[par][0], r[c][0]
+            d2 = sum((F(a[i]) - F(b[i])) ** 2 for i in range(3)); dr2 = (F(ra) - F(rb)) ** 2
+            if 0 < abs(d2 - dr2) <= Fraction(1, 10**5):
+                continue   # float32 norm may round either way at the boundary
+            cone = "cone " + ",".join(str(F(v)) for v in list(a) + list(b) + [ra, rb])
+            edge_lines.append((f"imgedge a={','.join(str(F(v)) for v in a)} b={','.join(str(F(v)) for v in b)} ra={F(ra)} rb={F(rb)}",
+                               (lambda out, cone=cone, made=made: (cone if out == "cone" else out) in made)))
         lo = np.floor(np.min(xyz - r, axis=0)); hi = np.ceil(np.max(xyz + r, axis=0))
         out = []
         # shape is (Z, X, Y)
@@ -180,16 +236,20 @@ class Raster(Suite):
             centres = [float(lo[ax]) + rs[ax] / 2 + i * rs[ax] for i in range(n_expected)]
             out.append((f"imggrid lo={Fraction(float(lo[ax]))} hi={Fraction(float(hi[ax]))} res={Fraction(rs[ax])}",
                         ",".join(str(Fraction(c)) for c in centres)))
-        return out
+        return out + edge_lines
 
     def oracle(self, case, res):
-        if "exc" in res:
-            return [("raster-raises", f"{res['exc']}: {res.get('msg')}")]
         t = case["tree"]
         rs = case["res"] if isinstance(case["res"], list) else [case["res"]] * 3
         xyz = np.array(t["xyz"], dtype=np.float64); r = np.array(t["r"], dtype=np.float64)
         lo = np.floor(np.min(xyz - r.reshape(-1, 1), axis=0)); hi = np.ceil(np.max(xyz + r.reshape(-1, 1), axis=0))
-        want_shape = [int(math.ceil((hi[2] - lo[2] - rs[2] / 2) / rs[2])), int(math.ceil((hi[0] - lo[0] - rs[0] / 2) / rs[0])), int(math.ceil((hi[1] - lo[1] - rs[1] / 2) / rs[1]))]
+        want_shape = [max(0, int(math.ceil((hi[2] - lo[2] - rs[2] / 2) / rs[2]))), max(0, int(math.ceil((hi[0] - lo[0] - rs[0] / 2) / rs[0]))),
+                      max(0, int(math.ceil((hi[1] - lo[1] - rs[1] / 2) / rs[1])))]
+        if "exc" in res:
+            if want_shape[0] == 0 and res["exc"] == "ValueError" and "at least one array to stack" in str(res.get("msg")):
+                # no voxel centre fits between the bottom and the top of the bounding box: there is no plane to stack
+                return [("raster-empty-z-grid-raises", f"resolution {rs} leaves no z plane in the bounding box {lo}..{hi}: ToImageStack.__call__ raises {res['exc']}: {res.get('msg')} instead of returning a (0, X, Y) stack")]
+            return [("raster-raises", f"{res['exc']}: {res.get('msg')}")]
         out = []
         if res["shape"] != want_shape:
             out.append(("raster-shape", f"stack shape (Z,X,Y)={res['shape']}, the bounding box {lo}..{hi} at resolution {rs} needs {want_shape}"))
